@@ -48,6 +48,19 @@ def part_token(ctx):
     ctx.log("token wide instances:", len(items))
     res = pool_map("cooc", "run_token", encode(items, ctx.seed + 1), min_chunk=200)
     judge(ctx, items, res, "token_wide", "token")
+    # variable window radii (window_functions="variable", power 0 / 2: exact rational radii from the corpus frequencies)
+    import random
+    rng = random.Random(ctx.seed + 6)
+    base = cooc_cfg.quick_cfgs()[::3] + [c for c in cooc_cfg.wide_cfgs(3, ctx.seed + 9, 60) if not any(w["table"] for w in c["wins"])]
+    cfgs = cooc_cfg.with_variable(base, rng)[: ctx.pick(16, 60)]
+    items = cooc_gen.emit(ctx, 3, ctx.pick(4, 5), ctx.pick(1, 2), cfgs, "Cooc variable radii V=3",
+                          invariants=cooc_gen.INVS + ["VariableRadiiWellFormed"])
+    if ctx.quick and len(items) > 4000:
+        ctx.exhaustive = False
+        items = rng.sample(items, 4000)
+    ctx.log("token variable-radius instances:", len(items))
+    res = pool_map("cooc", "run_token", encode(items, ctx.seed + 3), min_chunk=200)
+    judge(ctx, items, res, "token_variable", "token")
 
 
 def part_timed(ctx):
